@@ -26,9 +26,12 @@ for p in props:
     npart = sum(1 for t in th if "partial" in t) 
     nfail = sum(1 for t in th if t.endswith("_fails"))
     sd = []
-    for m in sorted(glob.glob(os.path.join(HERE, "seeded", pid + "-*", "meta.json"))):
+    for m in sorted(glob.glob(os.path.join(HERE, "seeded", pid + "-*", "meta.json")),
+                    key=lambda f: int(os.path.basename(os.path.dirname(f)).split("-")[1])):
         mm = json.load(open(m))
-        sd.append(os.path.basename(os.path.dirname(m)).split("-")[1] + ("✓" if mm.get("check", {}).get("detected") else "✗"))
+        ck = mm.get("check", {})
+        mark = "○" if mm.get("out_of_scope") else "?" if ck.get("rc") is None else "✓" if ck.get("detected") else "✗"
+        sd.append(os.path.basename(os.path.dirname(m)).split("-")[1] + mark)
     rows.append(f"| {pid} | {len(th)} | {npart} partial, {nfail} negation witnesses | {len(c.get('correspondence_ops', []))} | {c.get('evaluations')} "
                 f"| {e.get('wall_s')} | {', '.join(sorted(open_by.get(pid, {}))) or 'none'} | {' '.join(sd)} |")
 table = "\n".join(rows)
